@@ -120,14 +120,13 @@ theorem fq_ROOT_OF_UNITY_eq_SQRT_CMP : fq_ROOT_OF_UNITY = fq_SQRT_CMP := by deci
 theorem fq_ROOT_OF_UNITY_eq_NEGATIVE_ONE : fq_ROOT_OF_UNITY = NEGATIVE_ONE := by decide +kernel
 theorem fq_ROOT_OF_UNITY_eq : fq_ROOT_OF_UNITY = (q - 1) * 2 ^ 384 % q := by decide +kernel
 /-- `ROOT_OF_UNITY = GENERATOR^t` for `Fq` (`t = (q−1)/2`) -/
-theorem fq_ROOT_OF_UNITY_pow : powMod fqGenerator ((q - 1) / 2 ^ fq_S) q = q - 1 := by
+theorem fq_ROOT_OF_UNITY_powMod : powMod 2 ((q - 1) / 2) q = q - 1 := by
   decide +kernel
 
-theorem fr_ROOT_OF_UNITY_eq :
-    fr_ROOT_OF_UNITY = powMod frGenerator ((r - 1) / 2 ^ 32) r * 2 ^ 256 % r := by decide +kernel
-
-/-- the decoded root of unity of `Fr` -/
+/-- the decoded root of unity of `Fr`: `GENERATOR^t`, `t = (r−1)/2^32` -/
 def frOmega : ℕ := powMod 7 ((r - 1) / 2 ^ 32) r
+
+theorem fr_ROOT_OF_UNITY_eq : fr_ROOT_OF_UNITY = frOmega * 2 ^ 256 % r := by decide +kernel
 
 theorem frOmega_order_kernel : powMod frOmega (2 ^ 31) r = r - 1 ∧ powMod frOmega (2 ^ 32) r = 1 := by
   decide +kernel
@@ -136,6 +135,10 @@ theorem r_pos : 0 < r := by decide
 theorem q_pos : 0 < q := by decide
 
 theorem frOmega_eq : frOmega = 7 ^ ((r - 1) / 2 ^ 32) % r := powMod_eq_pow_mod _ _ _ r_pos
+
+/-- `ROOT_OF_UNITY = GENERATOR^t` for `Fq` (`t = (q−1)/2`): `2^((q−1)/2) ≡ −1` -/
+theorem fq_ROOT_OF_UNITY_pow : 2 ^ ((q - 1) / 2) % q = q - 1 := by
+  rw [← powMod_eq_pow_mod _ _ _ q_pos]; exact fq_ROOT_OF_UNITY_powMod
 
 /-- `ω = 7^((r−1)/2^32) mod r` has multiplicative order exactly `2^32` modulo `r`:
     `ω^(2^32) ≡ 1` and `ω^(2^31) ≡ −1 ≢ 1`. -/
